@@ -273,6 +273,38 @@ theorem remove_header_untouched_any (s : TdfSt) (t : Nat) (now : Int) (pos : Nat
   rw [List.take_take, show min 64 (old.off.toNat + (List.drop (old.off + old.size).toNat (writeAt s.view (slotPos 0) tab)).length) = 64 by omega]
   rw [take_writeAt _ _ _ _ (by omega) h1, take_writeAt _ _ _ _ (by simp [slotPos]) hv]
 
+theorem take_writeEntries (v : Bytes) (start : Nat) (es : List Entry) (hv : 64 ≤ v.length) :
+    (writeEntries v start es).take 64 = v.take 64 := by
+  induction es generalizing v start with
+  | nil => rfl
+  | cons e es ih =>
+    unfold writeEntries
+    rw [ih _ _ (by rw [writeAt_length]; omega), take_writeAt _ _ _ _ (by simp [slotPos]) hv]
+
+/-- … and so does an accepted or refused `add_block` whose slot points behind the header -/
+theorem add_header_untouched_any (s : TdfSt) (b : BlkArg) (c : Str) (now : Int) (hv : 64 ≤ s.view.length)
+    (hoff : ∀ pos, firstUnused s.entries = some pos → 64 ≤ (s.entries.getD pos unusedEntry).off) :
+    (addBlock s b c now).1.view.take 64 = s.view.take 64 := by
+  unfold addBlock
+  split
+  · rfl
+  · split
+    · rfl
+    · rename_i pos hpos
+      have ho := hoff pos hpos
+      split
+      · rfl
+      · split
+        · rfl
+        · simp only []
+          rw [take_writeAt _ _ _ _ (by omega) (by
+                have := take_writeEntries (writeAt s.view (slotPos pos) (Entry.enc ⟨b.typ, b.fmt, (s.entries.getD pos unusedEntry).off, b.size, b.cdate, b.mdate, now, c⟩)) (pos + 1)
+                  ((s.entries.drop (pos + 1)).map (fun x => { x with off := (s.entries.getD pos unusedEntry).off + b.size })) (by rw [writeAt_length]; omega)
+                have hl := congrArg List.length this
+                simp only [List.length_take, writeAt_length] at hl
+                omega),
+              take_writeEntries _ _ _ (by rw [writeAt_length]; omega), take_writeAt _ _ _ _ (by simp [slotPos]) hv]
+
 /-- non-vacuity: a real removal on a table in foreign order (live entry behind an unused slot) -/
 example : (removeBlock ⟨[], [], [⟨0, 0, 1000, 0, 0, 0, 0, []⟩, ⟨11, 1, 936, 64, 0, 0, 0, []⟩], 2⟩ 11 5).1.entries.length = 2 := by decide
 
